@@ -121,6 +121,26 @@ def check_option_word(ctx, case, by_construction=False):
             problems.append("requested bit %d lost" % bit)
     if problems:
         ctx.fail("option-flags", "C07.normal-form", case, "normalised option", problems, sig="option")
+        return
+    # set_default on the constructed option: same rules as at construction, and a rejected call changes nothing
+    for new in ("x", ["y"], None, 0, ("t",)):
+        before = o.default
+        legal = o.accepts_value() and (not o.is_multi_valued() or new is None or isinstance(new, list))
+        try:
+            o.set_default(list(new) if isinstance(new, list) else new)
+            outcome = "ok"
+        except ValueError:
+            outcome = "ValueError"
+        except Exception as e:
+            ctx.fail("option-flags", "C07.normal-form", case, "set_default(%r) accepted or ValueError" % (new,), None, exc=e)
+            return
+        want_default = ([] if (new is None and o.is_multi_valued()) else new) if legal else before
+        if outcome != ("ok" if legal else "ValueError") or o.default != want_default \
+                or (o.is_multi_valued() and not isinstance(o.default, list)):
+            ctx.fail("option-flags", "C07.normal-form", case,
+                     {"set_default": repr(new), "outcome": "ok" if legal else "ValueError", "default": repr(want_default)},
+                     {"outcome": outcome, "default": repr(o.default)}, sig="option-set-default")
+            return
 
 
 # -------------------------------------------------------------------------------- arguments
@@ -177,6 +197,25 @@ def check_argument_word(ctx, case, by_construction=False):
         problems.append("name")
     if problems:
         ctx.fail("argument-flags", "C07.normal-form", case, "normalised argument", problems, sig="argument")
+        return
+    for new in ("x", ["y"], None, 0, ("t",)):
+        before = a.default
+        legal = not a.is_required() and (not a.is_multi_valued() or new is None or isinstance(new, list))
+        try:
+            a.set_default(list(new) if isinstance(new, list) else new)
+            outcome = "ok"
+        except ValueError:
+            outcome = "ValueError"
+        except Exception as e:
+            ctx.fail("argument-flags", "C07.normal-form", case, "set_default(%r) accepted or ValueError" % (new,), None, exc=e)
+            return
+        want_default = ([] if (new is None and a.is_multi_valued()) else new) if legal else before
+        if outcome != ("ok" if legal else "ValueError") or a.default != want_default \
+                or (a.is_multi_valued() and not isinstance(a.default, list)):
+            ctx.fail("argument-flags", "C07.normal-form", case,
+                     {"set_default": repr(new), "outcome": "ok" if legal else "ValueError", "default": repr(want_default)},
+                     {"outcome": outcome, "default": repr(a.default)}, sig="argument-set-default")
+            return
 
 
 def check_command_option(ctx, case, by_construction=False):
